@@ -196,20 +196,21 @@ MUTANTS = [
     self._pending_statements = []''', '''    ans = list(self._pending_statements)''',
      ['malt.pyct.common_transformers.anf.AnfTransformer._consume_pending_statements']),
     ('c08-isolated-exports-all-reads', 'malt/pyct/static_analysis/activity.py',
-     '        self.parent.read.update(self.read - self.bound)', '        self.parent.read.update(self.read)',
+     '        self.parent.read.update(self.read - (self.bound - self.nonlocals))', '        self.parent.read.update(self.read)',
      ['malt.pyct.static_analysis.activity.Scope.finalize']),
     ('c08-block-forgets-modified', 'malt/pyct/static_analysis/activity.py',
      '        self.parent.modified.update(self.modified - self.isolated_names)\n', '',
      ['malt.pyct.static_analysis.activity.Scope.finalize']),
     ('c08-isolated-leaks-bound', 'malt/pyct/static_analysis/activity.py', '''      else:
-        # TODO(mdan): This is not accurate.
-        self.parent.read.update(self.read - self.bound)''', '''      else:
-        # TODO(mdan): This is not accurate.
+        # TODO(mdan): This is not accurate.''', '''      else:
         self.parent.bound.update(self.bound)
-        self.parent.read.update(self.read - self.bound)''', ['malt.pyct.static_analysis.activity.Scope.finalize']),
+        # TODO(mdan): This is not accurate.''', ['malt.pyct.static_analysis.activity.Scope.finalize']),
     ('c11-referenced-drops-bound', 'malt/pyct/static_analysis/activity.py',
      'return self.read | self.bound | self.parent.referenced', 'return self.read | self.parent.referenced',
      ['malt.pyct.static_analysis.activity.Scope.referenced']),
+    ('c08-nested-nonlocal-read-not-exported', 'malt/pyct/static_analysis/activity.py',
+     '        self.parent.read.update(self.read - (self.bound - self.nonlocals))', '        self.parent.read.update(self.read - self.bound)',
+     ['malt.pyct.static_analysis.activity.Scope.finalize']),
     ('c08-free-vars-includes-bound', 'malt/pyct/static_analysis/activity.py',
      'return enclosing_scope.read - enclosing_scope.bound', 'return enclosing_scope.read',
      ['malt.pyct.static_analysis.activity.Scope.free_vars']),
@@ -348,6 +349,9 @@ MUTANTS = [
     namespace = inspect_utils.getnamespace(fn)''', ['malt.pyct.transpiler.GenericTranspiler.transform_function']),
     ('c09-defaults-not-erased', 'malt/pyct/transpiler.py', '    node = self._erase_arg_defaults(node)\n    result = self.transform_ast(node, context)',
      '    result = self.transform_ast(node, context)', ['malt.pyct.transpiler.GenericTranspiler.transform_function']),
+    ('c10-cache-key-normalised-options', 'malt/impl/api.py', '''  def get_caching_key(self, ctx):
+    return ctx.options''', '''  def get_caching_key(self, ctx):
+    return ctx.options.call_options()''', ['malt.impl.api.PyToPy.get_caching_key']),
     ('c10-has-ignores-subkey', 'malt/pyct/cache.py', '    return subkey in parent', '    return True',
      ['malt.pyct.cache._TransformedFnCache.has']),
 ]
